@@ -17,6 +17,7 @@ import (
 	"crypto/rsa"
 	cryptorand "crypto/rand"
 	"io"
+	"errors"
 	"encoding/hex"
 	"encoding/json"
 	"fmt"
@@ -394,6 +395,22 @@ func vRSAKeyValid(name string) *rsa.PrivateKey {
 func vEnvFailed() bool { return false }
 
 func vRand() io.Reader { return cryptorand.Reader }
+
+// vFailRand: an entropy source that fails on the first read (kind 0: exhausted, io.EOF; 1: io.ErrUnexpectedEOF;
+// 2: a device error of its own); vIsRandErr: err is (wraps) that reader's error
+type vFailReader struct{ err error }
+
+func (r *vFailReader) Read(p []byte) (int, error) { return 0, r.err }
+
+var vErrEntropy = errors.New("entropy device failed")
+
+func vFailRand(kind int) io.Reader {
+	return &vFailReader{err: []error{io.EOF, io.ErrUnexpectedEOF, vErrEntropy}[kind]}
+}
+func vIsRandErr(err error, rd io.Reader) bool {
+	f, ok := rd.(*vFailReader)
+	return ok && err != nil && errors.Is(err, f.err)
+}
 
 // vYieldRand: entropy source that lets other goroutines run first (a scheduling point inside the primitive)
 type vYieldReader struct{}
